@@ -363,7 +363,7 @@ func intcomCase(r *runner, c counts, cx *intCtx, i int) {
 				r.prop(vid, "intcom-open-accepts-"+tamperClass(v.name), "Open accepts although "+v.name+" was changed", tcse, "intcom_open_iff_exponent")
 			}
 			r.ask(fmt.Sprintf("IO %s %s %s %s %s %s %s", vid, zh(cx.n), zh(sv), zh(v.t), zh(v.c), zh(v.m), zh(v.w)), func(out string) {
-				if out != impl {
+				if r.openAlarm(v.name == "honest", impl, out) {
 					r.corr(vid, "intcom-open-"+tamperClass(v.name), fmt.Sprintf("implementation Open=%s, model int_open=%s", impl, out), tcse,
 						"correspondence intcom Open [model/Commit.v int_open]", (v.name == "honest" && impl != "1") || (v.mustReject && impl == "1"))
 				}
